@@ -23,8 +23,8 @@ from vlib import corpus, oracle_engines as oe
 from vlib.denum import A, Grammar
 from vlib.run import Ctx
 
-COLS = {"x": ["a", "b"], "y": ["b", "c"], "z": ["c", "d"]}
-DATA = {"x": [(11, 1), (12, 2), (13, 3)], "y": [(1, 31), (2, 32), (4, 34)], "z": [(31, 41), (32, 42), (35, 45)]}
+COLS = {"x": ["a", "b"], "y": ["b", "c"], "z": ["c", "d"], "w": ["a", "d"]}
+DATA = {"x": [(11, 1), (12, 2), (13, 3)], "y": [(1, 31), (2, 32), (4, 34)], "z": [(31, 41), (32, 42), (35, 45)], "w": [(11, 41), (12, 49), (14, 42)]}
 ENG_SCHEMA = {t: {c: "INT" for c in cols} for t, cols in COLS.items()}
 
 
@@ -45,6 +45,9 @@ def schema_for(depth):
     if depth == 3:
         return {"cat": {"db": s}}
     return s
+
+
+NAT_STARS: dict = {}
 
 
 def grammar() -> Grammar:
@@ -106,6 +109,19 @@ def grammar() -> Grammar:
         A("group_expr", 1, "SELECT a + b AS s, COUNT(*) AS n FROM x GROUP BY a + b"),
         A("distinct_on", 1, "SELECT DISTINCT ON (b) a, b FROM x ORDER BY b, a"),
     ]
+    # NATURAL / USING chains; `w` shares column a with x but not with its left neighbour y
+    nat = {
+        "star2": ("SELECT * FROM x NATURAL JOIN y", "abc"), "cols2": ("SELECT a, c FROM x NATURAL JOIN y", None), "left": ("SELECT * FROM x NATURAL LEFT JOIN y", "abc"),
+        "full": ("SELECT * FROM x NATURAL FULL JOIN y", "abc"), "star3": ("SELECT * FROM x NATURAL JOIN y NATURAL JOIN z", "abcd"),
+        "star3_far": ("SELECT * FROM x NATURAL JOIN y NATURAL JOIN w", "abcd"), "cols3_far": ("SELECT a, b, c, d FROM x NATURAL JOIN y NATURAL JOIN w", None),
+        "using3_far": ("SELECT * FROM x JOIN y USING (b) JOIN w USING (a)", "abcd"), "using3_far_cols": ("SELECT a, d FROM x JOIN y USING (b) JOIN w USING (a)", None),
+        "using_full": ("SELECT b, a, c FROM x FULL JOIN y USING (b)", None), "using2_two": ("SELECT * FROM x JOIN w USING (a) JOIN z USING (d)", "abdc"),
+        "natural_then_using": ("SELECT * FROM x NATURAL JOIN y JOIN w USING (a)", "abcd"), "star3_far_where": ("SELECT * FROM x NATURAL JOIN y NATURAL JOIN w WHERE a = 11", "abcd"),
+    }
+    for n_, (sql_, star_) in nat.items():
+        q.append(A("nat." + n_, 1, sql_))
+        if star_:
+            NAT_STARS["nat." + n_] = sorted(star_)
     # column-list aliases over set-operation bodies: every wrapper x every body shape (left-deep chains of 2..4 branches,
     # right-nested, mixed operators); the alias list must name the outputs whatever the shape of the body
     b1, b2, b3, b4 = "SELECT a, b FROM x", "SELECT b, c FROM y", "SELECT c, d FROM z", "SELECT b, a FROM x"
@@ -137,7 +153,7 @@ def respell(sql: str, how: str) -> str:
     import re
 
     f = SPELLINGS[how]
-    return re.sub(r"\b([abcdxyz])\b", lambda m: f(m.group(1)), sql)
+    return re.sub(r"\b([abcdxyzw])\b", lambda m: f(m.group(1)), sql)
 
 
 def sources_of(select: exp.Expr) -> set[str]:
@@ -269,8 +285,12 @@ def worker(shard, nshards, plan):
             except Exception as e:
                 record(f"crash|{type(e).__name__}|{'+'.join(tags)}", dialect, sql, f"qualify leaked {type(e).__name__}: {str(e)[:80]}")
                 continue
-            t1 = q1.sql(dialect or None)
-            if t1 != tree.sql(dialect or None):
+            try:
+                t1 = q1.sql(dialect or None)
+                t0 = tree.sql(dialect or None)
+            except Exception:
+                continue   # a generator that cannot render the (qualified) tree is C05's / C14's business
+            if t1 != t0:
                 res["nontrivial"] += 1
             for code, msg in check_qualified(q1, D):
                 record(f"{code}|{'+'.join(tags)}", dialect, sql, f"{msg} in `{t1}`")
@@ -288,6 +308,14 @@ def worker(shard, nshards, plan):
                     got = None
                 if got is not None and got != want:
                     record(f"star_order|{tags[0]}", dialect, sql, f"star expanded to {got}, the source exposes {want}")
+            elif tags and tags[0] in NAT_STARS:
+                # NATURAL / USING chains: every column exactly once (the order is left to the DuckDB comparison)
+                try:
+                    got = sorted(n.lower() for n in q1.named_selects)
+                except Exception:
+                    got = None
+                if got is not None and got != NAT_STARS[tags[0]]:
+                    record(f"star_order|{tags[0]}", dialect, sql, f"star expanded to {q1.named_selects}, the join exposes each of {NAT_STARS[tags[0]]} once")
             elif tags and tags[0] in ("star", "star_derived", "star_join", "star_using", "tstar", "star_exclude", "star_replace", "union_derived_star"):
                 want = {"star": ["a", "b"], "star_derived": ["b", "a"], "star_join": ["a", "b", "b", "c"], "star_using": ["b", "a", "c"],
                         "tstar": ["a", "b", "c"], "star_exclude": ["b"], "star_replace": ["a", "b"], "union_derived_star": ["a"]}[tags[0]]
